@@ -10,7 +10,11 @@
                                      unchanged; the unit table only gains interned anonymous units;
                                      the conversion graph is untouched;
   * `parse_magnitude_type`           an accepted quantity has an int or float magnitude
-                                     (never Decimal), as written.
+                                     (never Decimal);
+  * `parse_magnitude_as_written`,
+    `parse_magnitude_int_iff`        that magnitude is `int(text)` of an integer literal or
+                                     `float(text)` of a decimal literal: the callbacks never turn
+                                     one into the other.
 -/
 import Proofs.ParseFrame
 import Proofs.Monad
@@ -216,11 +220,12 @@ section
 variable {α : Type} [Add α] [Sub α] [Mul α] [Div α] [Neg α] [OfNat α 0] [OfNat α 1] [FloatLike α]
 set_option linter.unusedSectionVars false
 
-/-- **C17 (magnitude type)**: an accepted quantity has an int or a float magnitude — never a
-    Decimal — and its unit exists; in every state satisfying the library's invariants. -/
-theorem parse_magnitude_type (g : Grammar) (t : String) (c : Conv α) (hg : Good c.st) (q : Qty α)
+/-- **C17 (magnitude as written)**: the magnitude of an accepted quantity is `int(text)` of an
+    integer literal or `float(text)` of a decimal literal (`Written`), and its unit exists; in every
+    state satisfying the library's invariants. -/
+theorem parse_magnitude_as_written (g : Grammar) (t : String) (c : Conv α) (hg : Good c.st) (q : Qty α)
     (h : (CM.exec (parseQuantity g t : CM α (Qty α)) c).1 = .ok q) :
-    q.mag.isDec = false ∧ q.unit < (CM.exec (parseQuantity g t : CM α (Qty α)) c).2.st.units.length := by
+    Written q.mag ∧ q.unit < (CM.exec (parseQuantity g t : CM α (Qty α)) c).2.st.units.length := by
   rw [exec_parseQuantity] at h ⊢
   rw [exec_parseStart] at h ⊢
   have hv := parseWith_vok (t := g.table) (rules := g.rules) (endS := g.endQty) (transformer_stableActs (α := α))
@@ -243,6 +248,27 @@ theorem parse_magnitude_type (g : Grammar) (t : String) (c : Conv α) (hg : Good
       | exp _ => cases h
       | mag _ => cases h
       | tree _ _ => cases h
+
+/-- **C17 (magnitude type)**: an accepted quantity has an int or a float magnitude — never a
+    Decimal — and its unit exists; in every state satisfying the library's invariants. -/
+theorem parse_magnitude_type (g : Grammar) (t : String) (c : Conv α) (hg : Good c.st) (q : Qty α)
+    (h : (CM.exec (parseQuantity g t : CM α (Qty α)) c).1 = .ok q) :
+    q.mag.isDec = false ∧ q.unit < (CM.exec (parseQuantity g t : CM α (Qty α)) c).2.st.units.length :=
+  ⟨(parse_magnitude_as_written g t c hg q h).1.notDec, (parse_magnitude_as_written g t c hg q h).2⟩
+
+/-- **C17 (int stays int)**: an accepted quantity has an `int` magnitude exactly when that
+    magnitude is the value `int(text)` of an integer literal; otherwise it is `float(text)` of a
+    decimal literal. -/
+theorem parse_magnitude_int_iff (g : Grammar) (t : String) (c : Conv α) (hg : Good c.st) (q : Qty α)
+    (h : (CM.exec (parseQuantity g t : CM α (Qty α)) c).1 = .ok q) :
+    (q.mag.isInt = true ↔ ∃ (text : String) (i : Int), pyInt text = .ok i ∧ q.mag = .int i) ∧
+    (q.mag.isInt = false → ∃ (text : String) (r : Rat), decimalLiteral text = some r ∧
+        q.mag = .flt (FloatLike.ofRat r)) := by
+  have hw := (parse_magnitude_as_written g t c hg q h).1
+  refine ⟨hw.int_iff, fun hf => ?_⟩
+  rcases hw with ⟨_, _, _, he⟩ | hw
+  · rw [he] at hf; cases hf
+  · exact hw
 
 end
 end C17
